@@ -551,6 +551,29 @@ fn lookups(rep: &mut Report, shard: u64, nshards: u64) {
             rep.evaluations += 1;
             rep.count("lookups.descriptor_names");
             let replay = json!({"cmd": "c16", "class": cname, "prop": pn});
+            // The way Studio writes a ContentId property (and the way rbx_reflector therefore meets it when it reads the
+            // defaults place to regenerate the database): a <Content> element holding <null> or <url>. What the reader
+            // stores must have the type the database declares, or the regenerated defaults are of the wrong type.
+            if ty == VariantType::ContentId {
+                if let Some(t) = dbwalk::travel(db, cname, pn) {
+                    if t.declared_ty == VariantType::ContentId && t.wire_ty == VariantType::ContentId {
+                        for (label, inner, want) in [("null", "<null></null>", ""), ("url", "<url>rbxassetid://3</url>", "rbxassetid://3")] {
+                            rep.count("lookups.studio-style-contentid");
+                            let doc = format!("<roblox version=\"4\"><Item class=\"{}\" referent=\"R0\"><Properties><string name=\"Name\">x</string><Content name=\"{}\">{}</Content></Properties></Item></roblox>", cname, t.wire_name, inner);
+                            match catch(|| rbx_xml::from_str_default(&doc).map_err(|e| e.to_string())) {
+                                Ok(Ok(d)) => {
+                                    let got = d.root().children().first().and_then(|r| d.get_by_ref(*r)).and_then(|i| i.properties.get(&rbx_dom_weak::ustr(t.back_name.as_str())).cloned());
+                                    if got != Some(Variant::ContentId(want.into())) {
+                                        rep.violation(&format!("C16:studio-style-contentid:{}", label), &format!("{}.{} written as <Content>{}</Content> is read as {:?}; the database declares ContentId", cname, t.wire_name, inner, got), replay.clone(), J::Null);
+                                    }
+                                }
+                                Ok(Err(e)) => rep.violation(&format!("C16:studio-style-contentid:read-error:{}", label), &format!("{}.{}: {}", cname, t.wire_name, e), replay.clone(), J::Null),
+                                Err(p) => rep.violation(&format!("C16:studio-style-contentid:{}", panic_sig(&p)), &p.msg, replay.clone(), J::Null),
+                            }
+                        }
+                    }
+                }
+            }
             // a second, bare instance of the class: the binary writer fills its gap from the database default,
             // looked up from whatever spelling the first instance used
             let dom = WeakDom::new(InstanceBuilder::new("DataModel").with_child(InstanceBuilder::new(cname).with_property(pn, v)).with_child(second));
